@@ -2,6 +2,7 @@
 from pyubx2 import UBXMessage, UBXReader
 from pyubx2 import exceptions as ube
 
+import common
 import impl
 import msggen
 import sweep
@@ -88,7 +89,7 @@ def run(ctx):
     ctx.disagreements = [d for d in ctx.disagreements if d["model"] != "RAISE Other"]
     # ---- search on the implementation ----
     for mode, name, d, key, p, kw, lt, kind in cases:
-        inp = {"op": "REBUILD", "mode": mode, "name": name, "kind": kind, "payload": p[:120].hex(), "kw": repr(kw)[:300]}
+        inp = {"op": "REBUILD", "mode": mode, "name": name, "kind": kind, "payload": p[:120].hex(), "kw": common.srepr(kw, 300)}
         try:
             with impl.quiet():
                 m = UBXMessage(key[0:1], key[1:2], mode, **kw)
@@ -114,7 +115,7 @@ def run(ctx):
         battrs = {k: v for k, v in back.__dict__.items() if not k.startswith("_")}
         bad = [k for k in kw if k in battrs and not same(battrs[k], kw[k])]
         if bad:
-            ctx.fail("supplied-value-not-returned", dict(inp, attribute=bad[0]), repr(kw[bad[0]])[:60], repr(battrs[bad[0]])[:60])
+            ctx.fail("supplied-value-not-returned", dict(inp, attribute=bad[0]), common.srepr(kw[bad[0]], 60), common.srepr(battrs[bad[0]], 60))
             ctx.failures[-1]["ctx"] = (mode, name, kw, bad)
             continue
         if kind == "all":
@@ -127,7 +128,7 @@ def run(ctx):
         else:
             omitted = [k for k in battrs if k not in kw and not is_nominal(battrs[k])]
             if omitted:
-                ctx.fail("omitted-attribute-not-nominal", dict(inp, attribute=omitted[0]), "zero/blank", repr(battrs[omitted[0]])[:60])
+                ctx.fail("omitted-attribute-not-nominal", dict(inp, attribute=omitted[0]), "zero/blank", common.srepr(battrs[omitted[0]], 60))
 
 
 def needed_counts(d):
